@@ -6,6 +6,10 @@
     * module-level mutable objects (dicts / lists / arrays)  (`Cell.table "module.NAME"`)
     * mutable default-argument objects                       (`Cell.dflt "module.func.param"`)
     * module-level names read by compiled code or rebound    (`Cell.glob "module.NAME"`)
+    * the objects the *caller* passed in and still holds afterwards -- it may pass them again, or derive
+      later arguments from them (`base[::2, ::2]`, `assign_coords`: xarray carries the attrs along)
+                                                             (`Cell.param "attrs" | "coords" | "name" |
+                                                               "binding" | "cells" | "object"`)
     * one dispatcher per jitted function with numba's compile-once semantics: the first call (per
       type signature) freezes the values of the captured globals / closure variables; later calls
       through the *same* dispatcher object see the frozen values.  A dispatcher created inside the
@@ -30,7 +34,16 @@ inductive Cell where
   | table (name : String)
   | dflt (name : String)
   | glob (name : String)
+  /-- state hung on an argument object that the caller keeps after the call: its `attrs` dict, its
+      coordinates, its `name`, the *binding* of its array (`x.data = x.data.rechunk(..)`), its cells,
+      any other attribute.  One cell per aspect: all argument objects of all calls share it (derived
+      rasters share their parent's attrs), which can only make the checkers reject more. -/
+  | param (aspect : String)
   deriving DecidableEq, Repr, Inhabited
+
+def Cell.callerOwned : Cell → Bool
+  | .param _ => true
+  | _ => false
 
 /-- a free variable of a jitted function -/
 inductive Capture where
